@@ -350,9 +350,16 @@ class sptensor:
             newsubs, loc = np.unique(subs, axis=0, return_inverse=True)
             # Sum the corresponding values
             # Squeeze to convert from column vector to row vector
+            # (narrow integer types are widened first: sums and products of a few
+            # int8 / int32 values already leave the range of their type)
+            flat_vals = np.atleast_1d(np.squeeze(vals))
+            if flat_vals.dtype.kind in "iu" and flat_vals.dtype.itemsize < 8:
+                flat_vals = flat_vals.astype(
+                    np.int64 if flat_vals.dtype.kind == "i" else np.uint64
+                )
             newvals = accumarray(
                 loc.flatten(),
-                np.atleast_1d(np.squeeze(vals)),
+                flat_vals,
                 size=newsubs.shape[0],
                 func=function_handle,
             )
